@@ -127,6 +127,12 @@ func Sets() [][]Def {
 		{}, // no terminal at all: `start = ;`
 		{L("BQ", "`"), L("ABQ", "a`b"), L("TRI", "```"), L("DOLLAR", "$"), L("PCT", "%d"), L("NL", `\n`), L("BRACES", "{{}}")},
 		{L("P1", "!"), L("P2", "#"), L("P3", "&"), L("P4", "'"), L("P5", "*"), L("P6", ","), L("P7", "."), L("P8", "/"), L("P9", ":"), L("PA", "<"), L("PB", ">"), L("PC", "?"), L("PD", "["), L("PE", "]"), L("PF", "^"), L("PG", "_"), L("PH", "|"), L("PI", "~"), L("PJ", `\\n`), L("PK", `\"\"`)},
+		// terminals that also match the empty text: the start state is accepting and its terminal owns further states
+		{P("NUM", "[0-9]*"), P("ID", "[a-z]+")},
+		{P("REP", "(ab)*"), L("KX", "x")},
+		{P("SIGN", `(\+|-)?x?`), P("WORD", "[a-z][a-z]+")},
+		{P("OPT", "a?")},
+		{P("LAST", "[a-z]+"), P("MID", "[0-9]+"), P("NUL", "(_)*")},
 	}
 }
 
